@@ -789,6 +789,9 @@ def install(engine):
     def dec_new(cls, value=None, precision=None):
         if isinstance(value, str) and E is not None and E.is_marker(value):
             value = E.marker_value(value)
+            if isinstance(value, SymFrac):
+                # the text form of a fraction is 'n/d', which is no decimal literal
+                raise ValueError("Can't convert marker of a fraction to Decimal.")
         if isinstance(value, SymStrBase):
             return value._parse_decimal(cls, precision)
         if not isinstance(value, (SymRat, SymInt)):
